@@ -99,9 +99,7 @@ Definition later1 (ts0 : list task) (k : nat) : Prop :=
 
 Lemma extra_init : Extra 0 new_driver.
 Proof.
-  split; [exact snap_init|]. split.
-  - intros w H; discriminate.
-  - intros d es [].
+  split; [exact snap_init|]. intros w H; discriminate.
 Qed.
 
 Lemma start_pre0 ts0 : Forall init_ok ts0 ->
